@@ -220,6 +220,11 @@ func ZZ_C08_CrossStatesServed() {
 		zzsym.Cover("cross-served-empty-block")
 	} else {
 		j := zzsym.Choose("j", k)
+		for i := 0; i < j; i++ {
+			// GetCrossStatesProof finds the record by its leaf hash (first match): distinct records are assumed
+			// not to collide under SHA-256; byte-identical duplicates: ZZ_C08_CrossStatesServedDuplicate
+			zzsym.Assume(merkle.HashLeaf(all[i].val) != merkle.HashLeaf(all[j].val))
+		}
 		proof, err := c.ls.GetCrossStatesProof(1, all[j].key)
 		zzsym.Assert(err == nil, "a cross-state proof is served for every record the block produced")
 		val, err := merkle.MerkleProve(proof, root1[:])
@@ -236,6 +241,26 @@ func ZZ_C08_CrossStatesServed() {
 	val0, err := merkle.MerkleProve(proof0, root0[:])
 	zzsym.Assert(err == nil && bytes.Equal(val0, g0[0].val), "served cross-state proof verifies against its own block's root and yields the record")
 	zzsym.Cover("cross-served-done")
+}
+
+// The same record value emitted twice in one block (under two storage keys): the proof served for the
+// second key is the one of the first position and must still verify and yield the stored record.
+func ZZ_C08_CrossStatesServedDuplicate() {
+	c := zz8NewChain()
+	g := zz8Group(0, 0, 4)
+	g[2].val = append([]byte(nil), g[0].val...)
+	zzsym.Assume(merkle.HashLeaf(g[1].val) != merkle.HashLeaf(g[3].val))
+	zzsym.Assume(merkle.HashLeaf(g[0].val) != merkle.HashLeaf(g[3].val))
+	c.commit([][]zz8Rec{g})
+	root, err := c.ss.GetCrossStateRoot(0)
+	zzsym.Assert(err == nil, "the cross-state root of a committed block can be read back")
+	for _, j := range []int{2, 3} {
+		proof, err := c.ls.GetCrossStatesProof(0, g[j].key)
+		zzsym.Assert(err == nil, "a cross-state proof is served for every record the block produced")
+		val, err := merkle.MerkleProve(proof, root[:])
+		zzsym.Assert(err == nil && bytes.Equal(val, g[j].val), "served cross-state proof verifies and yields exactly the stored record (duplicated value)")
+	}
+	zzsym.Cover("cross-served-duplicate-done")
 }
 
 func ZZ_C08_CrossStatesServed_witness() {
